@@ -25,7 +25,7 @@ theorem ginv_step {c : Cfg} (g : Ghost c) {s : State} {gh : LGhost} (hG : GInv c
     | pushLoadTail v =>
       dsimp only
       intro hI'
-      exact ginv_invoke hG hth hI' (fun _ h => by simpa [GOk] using h)
+      exact (ginv_invoke hG hth hI' (fun _ h => by simpa [GOk] using h)).congr rfl rfl
     | pushLoadSeq v pos =>
       dsimp only
       obtain ⟨sl, hsl⟩ := slot_exists g hI pos
@@ -40,7 +40,7 @@ theorem ginv_step {c : Cfg} (g : Ghost c) {s : State} {gh : LGhost} (hG : GInv c
       · rename_i hT
         rw [g.norm]
         intro hI'
-        exact ginv_pushCAS g hG hth hpc hT hI'
+        exact (ginv_pushCAS g hG hth hpc hT hI').congr rfl rfl
       · intro hI'; exact ginv_local hG hI' (GOk_finish _ _ _ _ _ _ _)
     | pushWrite v pos seq =>
       dsimp only
@@ -62,7 +62,7 @@ theorem ginv_step {c : Cfg} (g : Ghost c) {s : State} {gh : LGhost} (hG : GInv c
     | popLoadHead =>
       dsimp only
       intro hI'
-      exact ginv_invoke hG hth hI' (fun _ h => by simpa [GOk] using h)
+      exact (ginv_invoke hG hth hI' (fun _ h => by simpa [GOk] using h)).congr rfl rfl
     | popLoadSeq pos =>
       dsimp only
       obtain ⟨sl, hsl⟩ := slot_exists g hI pos
@@ -77,7 +77,7 @@ theorem ginv_step {c : Cfg} (g : Ghost c) {s : State} {gh : LGhost} (hG : GInv c
       · rename_i hH
         rw [g.norm]
         intro hI'
-        exact ginv_popCAS g hG hth hpc hH hI'
+        exact (ginv_popCAS g hG hth hpc hH hI').congr rfl rfl
       · intro hI'; exact ginv_local hG hI' (GOk_finish _ _ _ _ _ _ _)
     | popRead pos seq =>
       dsimp only
@@ -109,21 +109,21 @@ theorem ginv_step {c : Cfg} (g : Ghost c) {s : State} {gh : LGhost} (hG : GInv c
     | lenLoadTail =>
       dsimp only
       intro hI'
-      exact ginv_local hG hI' (by simp [GOk])
+      exact (ginv_local hG hI' (by simp [GOk])).congr rfl rfl
     | lenLoadHead t =>
       dsimp only
       intro hI'; exact ginv_local hG hI' (GOk_finish _ _ _ _ _ _ _)
     | emptyLoadHead =>
       dsimp only
       intro hI'
-      exact ginv_local hG hI' (by simp [GOk])
+      exact (ginv_local hG hI' (by simp [GOk])).congr rfl rfl
     | emptyLoadTail h =>
       dsimp only
       intro hI'; exact ginv_local hG hI' (GOk_finish _ _ _ _ _ _ _)
     | fullLoadTail =>
       dsimp only
       intro hI'
-      exact ginv_local hG hI' (by simp [GOk])
+      exact (ginv_local hG hI' (by simp [GOk])).congr rfl rfl
     | fullLoadHead t =>
       dsimp only
       intro hI'; exact ginv_local hG hI' (GOk_finish _ _ _ _ _ _ _)
@@ -156,7 +156,7 @@ theorem ginv_lrun {c : Cfg} (g : Ghost c) {s : State} {gh : LGhost} (hG : GInv c
   | nil => exact hG
   | cons i σ ih =>
     simp only [lrun]
-    exact ih (ginv_step g hG i)
+    exact ih ((ginv_step g hG i).congr (gfin_q _ _).1 (gfin_q _ _).2.1)
 
 theorem idx_lt_pend {c : Cfg} {s : State} {gh : LGhost} (hG : GInv c s gh) {i : Nat} {th : Thread}
     (hth : s.threads[i]? = some th) : i < gh.pend.length := by
